@@ -270,3 +270,25 @@ Example ocsp_example :
   let w2 := fun u => if u =? 1 then UErr else UResp self in
   cr_result (fst (ocsp_check w1 100 0 [1; 2])) = ROK /\ cr_result (fst (ocsp_check w2 100 0 [1; 2])) = RUnknown.
 Proof. split; reflexivity. Qed.
+
+(* ---- time only invalidates a response: an answer that is usable at now' was the same answer
+   at every earlier instant, and a failing server keeps failing ---- *)
+Theorem server_check_antitone outcome now now' st u : now <= now' ->
+  server_check outcome now' st u <> CError ->
+  server_check outcome now st u = server_check outcome now' st u.
+Proof.
+  unfold server_check. intros L H. destruct (outcome u) as [| |r]; try reflexivity.
+  destruct (negb (lib_accepts r)); [reflexivity|]. destruct (negb (authorised r)); [reflexivity|].
+  destruct (o_next r <? now') eqn:E; [exfalso; apply H; reflexivity|].
+  apply Z.ltb_ge in E. assert (o_next r <? now = false) as -> by (apply Z.ltb_ge; lia). reflexivity.
+Qed.
+
+Theorem server_error_persists outcome now now' st u : now <= now' ->
+  server_check outcome now st u = CError -> server_check outcome now' st u = CError.
+Proof.
+  unfold server_check. intros L H. destruct (outcome u) as [| |r]; try reflexivity.
+  destruct (negb (lib_accepts r)); [reflexivity|]. destruct (negb (authorised r)); [reflexivity|].
+  destruct (o_next r <? now) eqn:E.
+  - apply Z.ltb_lt in E. assert (o_next r <? now' = true) as -> by (apply Z.ltb_lt; lia). reflexivity.
+  - destruct (o_next r <? now'); [reflexivity|]. exact H.
+Qed.
